@@ -51,6 +51,9 @@ def r1(ctx, R):
                     key = "get_deriv_bases()"
                 if key is None or f.short in ("get_mixin_slots",) or (f.cls is not None and f.cls.name in ("ModelWriter",)):
                     continue
+                par = f.pm.get(x)
+                if isinstance(par, ast.Attribute) and par.attr == "refmode" and f.short == "UserSpaceImpl.on_inherit":
+                    continue    # initial mode of a new derived reference: overwritten at once by ReferenceImpl.on_inherit (C10.R2)
                 if key == "bases" and f.short in ("get_mixin_slots", "ItemSpaceParent.on_eval_formula"):
                     continue
                 n += 1
